@@ -74,6 +74,18 @@ theorem intersects_eq (c : Coll) (q : Unit) (hc : TimesWF c) (hq : ∀ i, qdt = 
     | error e => first | rfl | grind
     | ok c' => first | rfl | (simp only; cases c'.shapes.any xi <;> rfl) | grind
 
+theorem bool_eq (c : Coll) : Src.Coll.bool qdt xi xc qc c = c.bool := by
+  simp only [Src.Coll.bool, Coll.bool]
+
+/-- `__add__` of the source, per class of the two operands, is the model's `add` -/
+theorem add_eq (a b : Coll) :
+    (a.tag = .fc → b.tag = .fc → Src.Coll.fcAddFc qdt xi xc qc a b = add a b) ∧
+    (a.tag = .fc → b.tag = .track → Src.Coll.fcAddTrack qdt xi xc qc a b = add a b) ∧
+    (a.tag = .track → b.tag = .track → Src.Coll.trackAddTrack qdt xi xc qc a b = add a b) ∧
+    (a.tag = .track → b.tag = .fc → Src.Coll.trackAddFc qdt xi xc qc a b = add a b) := by
+  refine ⟨?_, ?_, ?_, ?_⟩ <;> intro ha hb <;>
+    simp only [Src.Coll.fcAddFc, Src.Coll.fcAddTrack, Src.Coll.trackAddTrack, Src.Coll.trackAddFc, add, ha, hb]
+
 /-! ### the C18 exactness laws, restated for the translated source -/
 
 theorem src_filterByDt_inst (c : Coll) (hc : WF c) (t : Int) :
